@@ -442,9 +442,9 @@ func C09(tier string) int {
 	for _, f := range []string{"x", "y.z"} {
 		ops = append(ops, ixOp{Kind: "AddField", Field: f})
 	}
-	xs := []any{nil, "a", "b", -1.5, 0.0, 2.0, 1e9}
+	xs := []any{nil, "a", "ab", -1.5, 0.0, 2.0, 1e9} // the two string terms are prefix-related on purpose
 	yzs := []any{nil, "a", 3.0}
-	for _, d := range []string{"d1", "d2"} {
+	for _, d := range []string{"d1", "d11"} { // so are the document ids
 		for _, x := range xs {
 			for _, yz := range yzs {
 				if !thorough && yz != nil && !(x == nil || x == "a" || x == 2.0) {
@@ -454,7 +454,7 @@ func C09(tier string) int {
 			}
 		}
 	}
-	for _, d := range []string{"d1", "d2", "zz"} {
+	for _, d := range []string{"d1", "d11", "zz"} {
 		ops = append(ops, ixOp{Kind: "RemoveDoc", Doc: d})
 	}
 	for _, f := range []string{"x", "y.z"} {
@@ -563,7 +563,7 @@ func C09(tier string) int {
 		"oracle = brute-force scan of the live documents for every registered field; queries on unregistered fields are not observed",
 		"range queries are probed only at bounds that are not themselves term values (the inclusive/exclusive convention is not documented)",
 		"minimum/maximum are compared only when the field has at least one numeric value",
-		"universe: fields x, y.z; documents d1,d2; terms a,b,-1.5,0,2,1e9 / a,3",
+		"universe: fields x, y.z; documents d1,d11 (one id a prefix of the other); terms a,ab (prefix-related),-1.5,0,2,1e9 / a,3",
 	}
 	_ = math.Inf
 	return run.Finish()
